@@ -80,7 +80,32 @@ func tableFromSx(s Sx) TableSpec {
 var litPool = []string{"a", "b", "ab", "a.b", "x", "users", "v1", "é", "a+b", "A"}
 var varNames = []string{"v", "id", "name", "w", "k"}
 var rxCurly = []string{`[0-9]+`, `[a-z]+`, `[A-Z][A-Z]`, `\d{1,3}`, `(?:foo|bar)`, `.*`, `ab`, `[a-z]*`, `^[0-9]+$`, `[^x]+`}
-var rxJsr = []string{`[0-9]+`, `[a-z]+`, `[A-Z][A-Z]`, `\d{1,3}`, `(?:foo|bar)`, `ab`}
+var rxJsr = []string{`[0-9]+`, `[a-z]+`, `[A-Z][A-Z]`, `\d{1,3}`, `(?:foo|bar)`, `ab`, `(cat|dog)`, `(\d+)|(latest)`}
+
+// the model counts the capture groups inside a variable's expression syntactically (Template.re_groups); that count
+// must be regexp's own for every expression the generators use
+func reGroups(re string) int {
+	n := 0
+	for i := 0; i < len(re); i++ {
+		switch re[i] {
+		case '\\':
+			i++
+		case '(':
+			if i+1 >= len(re) || re[i+1] != '?' {
+				n++
+			}
+		}
+	}
+	return n
+}
+
+func init() {
+	for _, re := range append(append([]string{}, rxJsr...), rxCurly...) {
+		if c, err := regexp.Compile(re); err != nil || c.NumSubexp() != reGroups(re) {
+			panic("harness: capture groups of " + re + " are not what the model counts")
+		}
+	}
+}
 var sufPool = []string{".foo", "_x", ".json"}
 var verbPool = []string{":get", ":cancel", ":x"}
 
@@ -91,10 +116,12 @@ var mimePool = []string{"application/json", "application/xml", "application/zip"
 // values that satisfy / nearly satisfy each regex of the pools
 var rxGood = map[string][]string{
 	`[0-9]+`: {"12", "7", "007"}, `[a-z]+`: {"ab", "x", "foo"}, `[A-Z][A-Z]`: {"AB", "NL"}, `\d{1,3}`: {"1", "123"},
+	`(cat|dog)`: {"cat", "dog"}, `(\d+)|(latest)`: {"7", "latest", "42"},
 	`(?:foo|bar)`: {"foo", "bar"}, `.*`: {"", "x", "a.b"}, `ab`: {"ab"}, `[a-z]*`: {"", "abc"}, `^[0-9]+$`: {"42"}, `[^x]+`: {"ab", "12"},
 }
 var rxNear = map[string][]string{
 	`[0-9]+`: {"1a", "a1", "x", ""}, `[a-z]+`: {"A", "1", "aB", ""}, `[A-Z][A-Z]`: {"A", "ABC", "ab"}, `\d{1,3}`: {"1234", "a", ""},
+	`(cat|dog)`: {"cow", "cats", "", "CAT"}, `(\d+)|(latest)`: {"latest7", "7x", "x", ""},
 	`(?:foo|bar)`: {"fo", "foobar", "baz"}, `.*`: {"é"}, `ab`: {"a", "xabx", "b"}, `[a-z]*`: {"A", "1"}, `^[0-9]+$`: {"4a", "a4"}, `[^x]+`: {"x", "xx", "axb"},
 }
 var valPool = []string{"x", "12", "ab", "foo", "AB", "é", "a.b", "x:get", "a", "b", "users", "x.foo", "q_x", "{v}", "a:b", "*", "x\ny", "a%2Fb", "%41b"}
@@ -308,13 +335,15 @@ func genTable(r *Rng, router int, maxWs int) (TableSpec, []genRoute) {
 					// crossed shapes: literal and plain-variable positions flipped at random, same method (below)
 					crossed = true
 					for k := range toks {
-						if toks[k].verb != "" || !r.Bool() {
+						if toks[k].verb != "" || (toks[k].kind != 3 && !r.Bool()) {
 							continue
 						}
 						if toks[k].kind == 0 {
 							toks[k] = tplTok{kind: 1, name: r.Pick(varNames)}
 						} else if toks[k].kind == 1 {
 							toks[k] = tplTok{kind: 0, text: r.Pick(litPool)}
+						} else if toks[k].kind == 3 {
+							toks[k] = tplTok{kind: 0, text: r.Pick([]string{"report", "x", "ab"}) + toks[k].suf} // /x/report.json next to /x/{id}.json
 						}
 					}
 				} else if len(toks) > 0 && r.Pct(70) {
@@ -433,7 +462,7 @@ func genRequest(r *Rng, routes []genRoute) *Req {
 		partner := overlapPartner(r, routes, gr)
 		segs := []string{}
 		for i, t := range gr.toks {
-			if partner != nil && t.kind == 1 && partner.toks[i].kind == 0 && i != badTok {
+			if partner != nil && (t.kind == 1 || (t.kind == 3 && strings.HasSuffix(partner.toks[i].text, t.suf))) && partner.toks[i].kind == 0 && i != badTok {
 				segs = append(segs, partner.toks[i].text) // aimed at both routes
 			} else {
 				segs = append(segs, t.instance(r, i != badTok))
@@ -776,6 +805,31 @@ func dispatchObs(c *restful.Container, pr *probe, q *Req) Sx {
 	return L(class, rec.Code, allowSet(rec.Header()), ids, paramsSx(pr.params), A(pr.selPath), selOK)
 }
 
+// as dispatchObs, through Container.ServeHTTP; the Location header of a redirect replaces the selected path
+func serveObs(c *restful.Container, pr *probe, q *Req) Sx {
+	rec := httptest.NewRecorder()
+	panicked := false
+	func() {
+		defer func() {
+			if recover() != nil {
+				panicked = true
+			}
+		}()
+		c.ServeHTTP(rec, q.HTTP())
+	}()
+	ids := Ls{}
+	for _, id := range pr.invoked {
+		ids = append(ids, id)
+	}
+	class := 1
+	if panicked {
+		class = 2
+	} else if len(pr.invoked) > 0 {
+		class = 0
+	}
+	return L(class, rec.Code, allowSet(rec.Header()), ids, paramsSx(pr.params), A(pr.selPath+rec.Header().Get("Location")), 1)
+}
+
 func runRoute(raw Sx) (Sx, Sx) {
 	t := tableFromSx(sxNth(raw, 0))
 	q := sxReq(sxNth(raw, 1))
@@ -824,9 +878,14 @@ func runSlash(raw Sx) (Sx, Sx) {
 	obs1 := dispatchObs(c, pr, q)
 	*pr = probe{}
 	obs2 := dispatchObs(c, pr, q2)
+	// the same pair through ServeHTTP (the mux patterns the container registered decide who gets the request)
+	*pr = probe{}
+	obs3 := serveObs(c, pr, q)
+	*pr = probe{}
+	obs4 := serveObs(c, pr, q2)
 	o := NewOracles()
 	tabulateRouting(o, kept, q.Path)
-	return L(o.Sx(), kept.Sx(), q.Sx()), L(obs1, obs2)
+	return L(o.Sx(), kept.Sx(), q.Sx()), L(obs1, obs2, obs3, obs4)
 }
 
 func init() { domains["slash"] = domain{gen: genSlash, run: runSlash} }
